@@ -19,7 +19,7 @@ From Coq Require Import String.
 From Coq Require Import ZArith SpecFloat.
 Require Import OV.Base.Bytes OV.Base.Py OV.Base.PyInt OV.Base.Str OV.Base.Regex OV.Base.PyFloat.
 Require Import OV.Model.C10_Regex OV.Gen.C10_Units OV.Model.C10.
-Require Import OV.Gen.C10_Code.
+Require Import OV.Gen.C10_Code OV.Gen.C10_QemuCode.
 Require Import OV.Proofs.C10_Regex OV.Proofs.C10_Form OV.Proofs.C10_Float OV.Proofs.C10 OV.Proofs.C10_Qemu OV.Proofs.C10_Equiv OV.Proofs.C10_Examples.
 Open Scope Z_scope.
 
@@ -103,7 +103,7 @@ Print Assumptions C10_ceil_is_ceiling.
    bits, n * F (/ 8 for bit units) an integer a below 2^53: the result is exactly the float of
    value a (with the sign), and return_int returns exactly a.
    exact_hyps (Proofs/C10.v) is the conjunction of: (u, prefixes) a known system; sg empty, + or -;
-   ds non-empty ASCII digits of value n; pre empty or a prefix of the system; un in {b, bit, B};
+   ds non-empty Unicode decimal digits of value n > 0; pre empty or a prefix of the system; un in {b, bit, B};
    F = 1 or spec_base^spec_exp; repr53b F; n * F = a * (8 | 1); a < 2^53. *)
 Theorem C10_exact_when_representable : forall u prefixes sg ds pre un n F a,
   exact_hyps u prefixes sg ds pre un n F a ->
@@ -147,3 +147,72 @@ Theorem C10_translation_equiv : forall text unit_system return_int,
   gen_string_to_bytes text unit_system return_int = string_to_bytes text unit_system return_int.
 Proof. exact gen_string_to_bytes_equiv. Qed.
 Print Assumptions C10_translation_equiv.
+
+(* ---- QemuImgInfo (human format): which fields are byte sizes and what is stored for them ---- *)
+
+(* _extract_bytes raises nothing but ValueError, for every details text *)
+Theorem C10_extract_bytes_only_ValueError : forall details e,
+  extract_bytes details = Exn e -> e = ValueError.
+Proof. exact extract_bytes_only_ValueError. Qed.
+Print Assumptions C10_extract_bytes_only_ValueError.
+
+(* the byte-size fields are exactly virtual_size, cluster_size and disk_size *)
+Theorem C10_size_details_fields : forall root_cmd root_details,
+  size_details root_cmd root_details <> None <->
+  (root_cmd = lit "virtual_size" \/ root_cmd = lit "cluster_size" \/ root_cmd = lit "disk_size").
+Proof. exact size_details_fields. Qed.
+Print Assumptions C10_size_details_fields.
+
+(* what is stored: 0 for 'None' / 'unavailable', otherwise what _extract_bytes returns or raises *)
+Theorem C10_size_details_value : forall root_cmd root_details, In root_cmd size_fields ->
+  size_details root_cmd root_details =
+  Some (if existsb (beq root_details) zero_words then Ok 0%Z else extract_bytes root_details).
+Proof. exact size_details_value. Qed.
+Print Assumptions C10_size_details_value.
+
+(* never a silent 0: a stored 0 comes from one of the two words or from a text whose byte count is 0;
+   a stored exception is the ValueError of _extract_bytes, and every such ValueError is propagated *)
+Theorem C10_size_details_no_silent_zero : forall root_cmd root_details v,
+  size_details root_cmd root_details = Some v ->
+  (v = Ok 0%Z -> In root_details zero_words \/ extract_bytes root_details = Ok 0%Z) /\
+  (forall e, v = Exn e -> e = ValueError /\ extract_bytes root_details = Exn e) /\
+  (forall e, extract_bytes root_details = Exn e -> ~ In root_details zero_words -> v = Exn e).
+Proof. exact size_details_no_silent_zero. Qed.
+Print Assumptions C10_size_details_no_silent_zero.
+
+(* no figure, no unit: int(magnitude) *)
+Theorem C10_qemu_no_unit_is_int : forall details a e g g1,
+  re_search size_re details = Some (a, e, g) -> group_text details g 1 = Some g1 -> has_e g1 = false ->
+  truthy (group_text details g 3) = false -> truthy (group_text details g 2) = false ->
+  extract_bytes details = py_int_lim g1.
+Proof. exact no_unit_is_int. Qed.
+Print Assumptions C10_qemu_no_unit_is_int.
+
+(* the translated _canonicalize, _extract_bytes and size branch of _extract_details are the model *)
+Theorem C10_qemu_translation_equiv :
+  (forall field, gen_canonicalize field = canonicalize field) /\
+  (forall details, gen_extract_bytes details = extract_bytes details) /\
+  (forall root_cmd root_details, gen_size_details root_cmd root_details = size_details root_cmd root_details).
+Proof. exact (conj gen_canonicalize_equiv (conj gen_extract_bytes_equiv gen_size_details_equiv)). Qed.
+Print Assumptions C10_qemu_translation_equiv.
+
+(* ... and for a zero magnitude (any sign, any number of zero digits, any decimal-digit script) *)
+Theorem C10_exact_zero : forall u prefixes sg ds pre un,
+  In (u, prefixes) spec_systems -> (sg = [] \/ sg = [43%N] \/ sg = [45%N]) ->
+  digits ds = true -> ds <> [] -> dvalN (map asc ds) 0 = 0%N ->
+  (pre = [] \/ In pre prefixes) -> In un units3 ->
+  string_to_bytes (sg ++ ds ++ pre ++ un) u false = Ok (NFloat (S754_zero (beq sg [45%N]))) /\
+  string_to_bytes (sg ++ ds ++ pre ++ un) u true = Ok (NInt 0).
+Proof. exact exact_zero. Qed.
+Print Assumptions C10_exact_zero.
+
+(* oslo_utils.units: every constant whose name is a key of the exponent table is 1024^e (names ending
+   in i) or 1000^e, and the 20 SI / IEC constants k M .. Q, Ki .. Qi are all there with those values —
+   so "base 1024 for IEC, 1000 for SI" of string_to_bytes and the constants of units.py agree *)
+Theorem C10_units_agree :
+  (forall nm v e, In (nm, v) units_constants -> lookup nm unit_prefix_exponent = Some e ->
+                  v = (if ends_with_i nm then 1024 else 1000) ^ e) /\
+  (forall p, In p si_prefixes -> lookup p units_constants = Some (1000 ^ spec_exp p)) /\
+  (forall p, In p iec_prefixes -> ends_with_i p = true -> lookup p units_constants = Some (1024 ^ spec_exp p)).
+Proof. exact units_agree. Qed.
+Print Assumptions C10_units_agree.
